@@ -49,7 +49,7 @@ func TestMain(m *testing.M) {
 	}
 	core.DeclareFaults("preemption", "preemption-inside-tink-call", "task-finished-handover", "free-run-fallback")
 	core.DeclareProbes("globally-sourced-randomness(semantic oracle)", "legacy-adapter", "multi-key-keyset", "handle-reads", "construct-under-schedule",
-		"registry-lookup", "keygen-under-schedule", "accept-rejects-corrupted", "race-build", "monitored-handle", "monitoring-events-compared", "round-robin-plan", "site-targeted-plan", "reparse-construct-under-schedule")
+		"registry-lookup", "keygen-under-schedule", "accept-rejects-corrupted", "race-build", "monitored-handle", "monitoring-events-compared", "round-robin-plan", "site-targeted-plan", "reparse-construct-under-schedule", "prehash-signing-path")
 	stubkm.Register()
 	core.Main(m, prop, "sched", map[string]string{"everything in /repo": "real (instrumented copies via -overlay: yield call before every statement, semantics unchanged)",
 		"goroutine scheduling": "stub (simsched baton, plan drawn by rapid)", "crypto/rand": "stub (simrng, one lane per task)",
@@ -86,6 +86,7 @@ type shared struct {
 	acc       *classes.Acceptor
 	semantic  bool
 	monitored bool
+	prehash   bool
 	outputs   [][3][]byte // pre-produced (out, msg, aux)
 }
 
@@ -250,6 +251,13 @@ func runSched(t *rapid.T) {
 	}
 	var err error
 	sh.prod, err = classes.NewProducer(sh.class, sh.h)
+	if err == nil && sh.class == classes.Signature && sh.entry.KeyType == "mldsa" && rapid.Bool().Draw(t, "prehashPath") {
+		// the two-step external-mu signing path (signprehash) of the same key; refused for variants without an ID
+		if p, perr := classes.NewPrehashProducer(sh.h); perr == nil {
+			sh.prod, sh.prehash = p, true
+			r.Probe("prehash-signing-path")
+		}
+	}
 	if err != nil {
 		r.Logf("producer refused: %v", err)
 		core.CountGlobal("primitive-refused:" + sh.entry.KeyType)
@@ -552,7 +560,13 @@ func coldTwin(sh *shared, monitored bool) (*shared, error) {
 		h = sh.h
 	}
 	c := &shared{class: sh.class, entry: sh.entry, h: h, semantic: sh.semantic, outputs: sh.outputs, monitored: monitored}
-	if c.prod, err = classes.NewProducer(c.class, h); err != nil {
+	if sh.prehash {
+		c.prod, err = classes.NewPrehashProducer(h)
+		c.prehash = true
+	} else {
+		c.prod, err = classes.NewProducer(c.class, h)
+	}
+	if err != nil {
 		return nil, err
 	}
 	if sh.acc != nil {
